@@ -217,7 +217,81 @@ def run(ctx):
                 ctx.violation('tokens-%s/%s' % (kind, vv[0]), 'code of %s in the built cart is not token-for-token what it should be (%s at source offset %d)' % (what, vv[0], vv[1]),
                               {'kind': 'graph', 'graph': it[1], 'seed': it[2]})
     illformed(ctx)
+    loadpaths(ctx)
     ctx.sample({'graph': {'exists': pick[0]['exists'], 'req': pick[0]['req']}, 'observed': res[0]['bound'], 'outcome': res[0]['outcome']})
+
+
+LOADPATHS = ['?.lua', 'lib/?.lua', '?/init.lua', 'libs/?/?.lua', '?/?', 'x?y/?.lua', 'lib/?.lua;?.lua', 'nothere/?.lua;libs/?/?.lua;?', '?;?.lua', '?.lua;lib/?.lua',
+             'lib/??.lua', '?/?/?.lua']
+
+
+def _loadpath_case(item):
+    lp, names, present, tmp = item
+    from pico8 import tool
+    from pico8.game import file as gfile
+    core.quiet_picotool()
+    S = tempfile.mkdtemp(prefix='c14lp_', dir=tmp)
+    pats = lp.split(';')
+    exists = []
+    # a package file at every pattern's substitution for the names in `present` - and decoys where a loader that
+    # substitutes only one "?" (or none) would look
+    for n in names:
+        for pi, pat in enumerate(pats):
+            full = pat.replace('?', n)
+            places = [(full, n in present)] + [(pat.replace('?', n, 1), False)] * (pat.count('?') > 1) + [(pat, False)] * (pat.count('?') > 0)
+            for rel, real in places:
+                if real or rel != full:
+                    fp = os.path.join(S, rel)
+                    if os.path.exists(fp) or os.path.isdir(fp):
+                        continue
+                    os.makedirs(os.path.dirname(fp) or S, exist_ok=True)
+                    try:
+                        with open(fp, 'wb') as f:
+                            f.write(b'id_pkg = "' + rel.encode() + b'"\nreturn {}\n')
+                        exists.append(rel)
+                    except OSError:
+                        pass
+    with open(os.path.join(S, 'main.lua'), 'wb') as f:
+        f.write(b''.join(b'local m%d = require("%s")\n' % (k, n.encode()) for k, n in enumerate(names)) + b'function f() return require("' + names[0].encode() + b'") end\n')
+    out = os.path.join(S, 'out.p8')
+    try:
+        rc = tool.main(['--quiet', 'build', out, '--lua', os.path.join(S, 'main.lua'), '--lua-path', lp])
+    except SystemExit as e:
+        rc = e.code
+    except Exception as e:  # noqa
+        rc = 'exception %s' % type(e).__name__
+    rec = {'patterns': [p_.split('?') for p_ in pats], 'exists': exists, 'reqs': list(names), 'outcome': 'error', 'bound': []}
+    if rc in (0, None) and os.path.exists(out):
+        rec['outcome'] = 'ok'
+        code = b''.join(gfile.from_file(out).lua.to_lines())
+        heads = list(re.finditer(rb'package\._c\["([^"]*)"\]=function\(\)\n', code))
+        for i, h in enumerate(heads):
+            end = heads[i + 1].start() if i + 1 < len(heads) else len(code)
+            m = re.search(rb'id_pkg = "([^"]*)"', code[h.end():end])
+            rec['bound'].append([h.group(1).decode(), m.group(1).decode() if m else '?'])
+    shutil.rmtree(S, ignore_errors=True)
+    return rec, str(rc)
+
+
+def loadpaths(ctx):
+    """custom load paths (--lua-path): every "?" of a pattern stands for the require string; patterns are tried in order"""
+    items = []
+    for lp in LOADPATHS:
+        for names, present in ((('vec', 'phys'), ('vec', 'phys')), (('vec',), ()), (('a', 'b'), ('a',)), (('vec', 'phys'), ('vec', 'phys'))):
+            items.append((lp, names, present, ctx.tmp))
+    res = core.parmap(_loadpath_case, items, procs=8)
+    can = {'patterns': [['libs/', '/', '.lua']], 'exists': ['libs/vec/vec.lua', 'libs/vec/?.lua'], 'reqs': ['vec'], 'outcome': 'ok', 'bound': [['vec', 'libs/vec/?.lua']]}
+    v = ctx.validate('TraceLoadPath', [r for r, _ in res] + [can])
+    ctx.traces -= 1
+    ctx.canary(v[-1][0] == 'wrong-file-bound', 'only the first ? substituted')
+    for (lp, names, present, _), (rec, rc), vv in zip(items, res, v):
+        ctx.evaluations += 1
+        if vv[0] == 'ok':
+            ctx.nontrivial += 1
+        else:
+            ctx.violation('loadpath/%s/%s' % (vv[0], 'multi-q' if any(p_.count('?') > 1 for p_ in lp.split(';')) else 'single-q'),
+                          'build --lua-path %r requiring %s (package files present for %s): %s; outcome %s (%s), bound %s' % (lp, list(names), list(present), vv[0], rec['outcome'], rc, rec['bound']),
+                          {'kind': 'loadpath', 'lua_path': lp, 'names': list(names)})
 
 
 def illformed(ctx):
